@@ -176,7 +176,7 @@ pub fn main(args: &[String]) -> i32 {
         (0, vec![None; lines.len()], now)
     };
 
-    std::panic::set_hook(Box::new(|_| {}));
+
     xs::verif::set_now_ms(now);
     let gate = Gate::install();
     let store = Store::new(workdir.join("store"));
